@@ -230,6 +230,14 @@ def run_case(ctx, name, params):
                 a.options["max_population_size"] = r.randint(1, 30)
                 ctx.count("leader_generations_after_population_size_change")
             nxt = [particle(r, bxs, mm, False) for _ in range(r.randint(1, 20))]
+            if r.random() < 0.4:
+                # particles parked at one position (a corner of the box, a converged swarm) whose measured costs differ (noisy or
+                # stateful objective): they are different solutions as far as dominance is concerned
+                for q in nxt:
+                    if r.random() < 0.5:
+                        src = r.choice(list(a.leaders) + nxt)
+                        q.vector = list(src.vector)
+                ctx.count("leader_generations_with_particles_at_one_position")
             if r.random() < 0.5 and len(a.leaders) > 0:
                 worst = [max(l.costs_signed[j] for l in a.leaders) for j in range(mm)]
                 for q in nxt:
